@@ -497,9 +497,12 @@ fn short_valid_frames<T: Archive>() -> Vec<(String, Vec<u8>)> {
 }
 
 fn frames_part(tier: Tier, st: &mut Stats) -> Vec<(&'static str, String, Vec<u8>)> {
-    let max_len = tier.pick(300, 1100);
+    let max_len = tier.pick(400, 9000);
     let mut hostile: Vec<(&'static str, String, Vec<u8>)> = Vec::new();
-    let small_sizes: Vec<usize> = vec![0, 1, 3, 4, 7, 8, 9, 15, 16, 17, 31, 32, 33];
+    let mut small_sizes: Vec<usize> = vec![0, 1, 3, 4, 7, 8, 9, 15, 16, 17, 31, 32, 33];
+    if tier.is_thorough() {
+        small_sizes.extend([63, 64, 65, 127, 128, 129, 255, 256, 257, 511, 512, 1000, 2048, 4000, 8000]);
+    }
 
     macro_rules! family {
         ($t:ty, $kind:expr, $values:expr) => {
